@@ -169,6 +169,19 @@ func checkC13(c *Ctx) {
 						if uerr != nil {
 							return true
 						}
+						// schema text spliced into the FORMAT (not passed as an argument): a `%` in it becomes a verb
+						if hm := holeMarker.FindString(f); hm != "" && unsafeInFormat(u, hm) {
+							line := fset.Position(call.Pos()).Line
+							pos := ""
+							if line >= 1 && line <= len(u.Lines) {
+								pos = c.P.Pos(u.Lines[line-1].Pos)
+							}
+							k := fmt.Sprintf("%s: %s has generation-time text inside its format string (%s)", pos, fn, holeFree(lit.Value))
+							if _, ok := fmtBad[k]; !ok {
+								fmtBad[k] = pos
+							}
+							return true
+						}
 						verbs := 0
 						for i := 0; i < len(f); i++ {
 							if f[i] != '%' {
@@ -767,4 +780,25 @@ func bareForeignTypeNames(c *Ctx, rid string, roots []RootInfo) {
 		r.Bad(rid, k, bare[k].pos, "a type that may be declared in another Go package is printed by its bare GoName: protogen qualifies and imports only a GoIdent, so for an imported type the emitted file refers to an undefined identifier and does not compile (emitted: "+bare[k].ex+")", nil)
 	}
 	r.OKd(rid, "type references printed as GoIdent", "", map[string]any{"sites": okIdent, "bare": len(bare)})
+}
+
+// holeMarker: the placeholder a reconstructed unit carries where the generator prints a value that is not a constant.
+var holeMarker = regexp.MustCompile(`H[0-9A-Za-z]*_[0-9a-f]{4}`)
+
+// unsafeInFormat: the value printed at the marker can contain a `%`: option text (discriminator, json_name, header
+// names, examples, descriptions). Go identifiers derived by protogen (GoName, GoIdent) and proto identifiers
+// (Desc.Name()) cannot.
+func unsafeInFormat(u *Unit, marker string) bool {
+	for _, l := range u.Lines {
+		for _, sg := range l.Segs {
+			if sg.Hole != nil && HoleName(sg.Hole) == marker {
+				k := sg.Hole.Key
+				if isUserText(k) != "" || strings.Contains(k, "Discriminator") || strings.Contains(k, "JSONName()") || strings.Contains(k, "GetName()") || strings.Contains(k, "Prefix") {
+					return true
+				}
+				return false
+			}
+		}
+	}
+	return false
 }
